@@ -334,6 +334,9 @@ def run_case(case):
             elif kind == 'set_period':
                 spec.set_sampling_period(call[1], call[2], call[3])
                 res = {'status': 'ok', 'value': None}
+            elif kind == 'set_unit':
+                spec.unit = call[1]
+                res = {'status': 'ok', 'value': None}
             elif kind == 'pastify':
                 spec.pastify()
                 res = {'status': 'ok', 'value': None}
@@ -480,6 +483,9 @@ def do_call(spec, case, call):
         return {'status': 'ok', 'value': None}
     if kind == 'set_period':
         spec.set_sampling_period(call[1], call[2], call[3])
+        return {'status': 'ok', 'value': None}
+    if kind == 'set_unit':
+        spec.unit = call[1]
         return {'status': 'ok', 'value': None}
     if kind == 'pastify':
         spec.pastify()
